@@ -255,9 +255,10 @@ Definition step_compile (i : nat) (iv : inv) (fs : fsys) (p : proc) : fsys * pro
      CInit     `mage -init`: creates magefile.go in the directory (O_EXCL), nothing shared is touched
    The run-only system above ([inv], [step], [run], [alone]) is the restriction of this one to CRun. *)
 Inductive cmd := CRun | CCompile | CClean | CInit.
-(* [g_sub]: the directory <dir>/magefiles when it exists.  Invoke (mage/main.go:327-347) calls
-   removeStaleMainfile(<dir>/magefiles) BEFORE it decides which of the two directories it uses: an invocation in <dir>
-   removes the generated file of <dir>/magefiles at start-up even when it then works in <dir>. *)
+(* [g_sub] is a SWITCH for the code before fix 62b109f: [Some d] = the directory <dir>/magefiles, whose generated file
+   Invoke then removed at start-up (removeStaleMainfile(<dir>/magefiles) BEFORE deciding which of the two directories
+   to use) even when it went on to work in <dir>.  The current tree removes only in the directory it uses: [None]
+   (the harness always passes None; Some is kept for the witness C20_magefiles_subdir_before_repair_refuted). *)
 Record ginv := { g_inv : inv; g_cmd : cmd; g_sub : option dir }.
 Definition as_run (iv : inv) : ginv := {| g_inv := iv; g_cmd := CRun; g_sub := None |}.
 Definition remove_sub (g : ginv) (p : proc) (r : fsys * proc) : fsys * proc :=
